@@ -12,7 +12,7 @@ R-C24.4   dagger restrictions: loops, the three assignment kinds, subscripted pl
 R-C24.5   compiled functions record their flags (must-call add_unitarity_metadata).
 R-C24.6   the qubit finder never prunes the descent into a type.
 R-C24.8   a non-acceptable call nested in the arguments (any position, next to qubit or classical arguments) or in the callee
-          expression of an acceptable call is found and rejected -- interpreted on 252 nestings (c24_calls.py; the shape rules
+          expression of an acceptable call is found and rejected -- interpreted on 288 nestings (c24_calls.py; the shape rules
           of c24_traversal.py only as fallback); the qubit finder looks into struct fields.
 R-C24.7   flag plumbing: decorator kwargs -> definition -> CFG -> unitary pass.
 """
